@@ -74,7 +74,7 @@ fn smh_case<H: Hasher + Default>(ctx: &mut Ctx, m: usize, items: &[u64], chunks:
     let sfx = if f32v { "32" } else { "64" };
     ctx.op(&format!("smh new{} a {}", sfx, m));
     for x in items {
-        ctx.op(&format!("smh sk{} a {}", sfx, hx(hash_with::<H, u64>(x))));
+        ctx.op(&format!("smh sk{} a {}", sfx, hash_tok::<H>(x)));
     }
     let bounds: Vec<usize> = (0..=chunks).map(|c| c * items.len() / chunks).collect();
     if f32v {
@@ -258,6 +258,30 @@ pub fn corr_smh(ctx: &mut Ctx) {
             }
         }
     }
+    // RECYCLED sketchers: a sketcher that served another (small or large) set and was reinit-ed must give the sketch a fresh
+    // one gives - users estimating many similarities reuse one object. Implementation only, SuperMinHash f64/f32 and SuperMinHash2.
+    for c in 0..ctx.n(40, 400) {
+        let mut rng = ctx.rng.fork();
+        let m = [1usize, 2, 3, 8, 16, 64, 257][c as usize % 7];
+        let nh = [0usize, 1, 2, 3, 5 * m + 3][(c as usize / 7) % 5];
+        let hist = gen_stream(&mut rng, nh);
+        let nx = 1 + rng.below(if c % 2 == 0 { 3 } else { 2 * m as u64 + 5 }) as usize;
+        let mut xs = gen_stream(&mut rng, nx);
+        if nh > 0 && c % 3 == 0 { xs[0] = hist[nh - 1]; }
+        ctx.begin_case(&format!("recycled smh m={} hist={} x={}", m, nh, nx));
+        ctx.mark_nontrivial();
+        ctx.count("recycled sketcher (history, reinit, stream) vs fresh");
+        let r64 = catch(std::panic::AssertUnwindSafe(|| { let mut s = SuperMinHash::<f64, u64, FnvHasher>::new(m, BuildHasherDefault::<FnvHasher>::default());
+            for x in &hist { s.sketch(x).unwrap(); } s.reinit(); s.sketch_slice(&xs).unwrap(); s.get_hsketch().clone() }));
+        let r32 = catch(std::panic::AssertUnwindSafe(|| { let mut s = SuperMinHash::<f32, u64, FnvHasher>::new(m, BuildHasherDefault::<FnvHasher>::default());
+            for x in &hist { s.sketch(x).unwrap(); } s.reinit(); s.sketch_slice(&xs).unwrap(); s.get_hsketch().clone() }));
+        let r2 = catch(std::panic::AssertUnwindSafe(|| { let mut s = SuperMinHash2::<u64, u64, FnvHasher>::new(m, BuildHasherDefault::<FnvHasher>::default());
+            for x in &hist { s.sketch(x).unwrap(); } s.reinit(); s.sketch_slice(&xs).unwrap(); s.get_hsketch().clone() }));
+        if r64 != smh_sketch_f64(m, &xs) || r32 != smh_sketch_f32(m, &xs) || r2 != smh2_sketch(m, &xs) {
+            ctx.oracle_failure(serde_json::json!({"kind":"impl_violates_property","what":"a recycled sketcher (history, reinit, stream) gives another sketch than a fresh one",
+                "m":m,"history":hist,"stream":xs,"smh_f64_ok": r64 == smh_sketch_f64(m, &xs),"smh_f32_ok": r32 == smh_sketch_f32(m, &xs),"smh2_ok": r2 == smh2_sketch(m, &xs)}));
+        }
+    }
     // long streams on ONE instance (> 2^16 + 2^8 items): counters, ranks or generation stamps kept in a narrow
     // integer show only then. Implementation only: three orders of the same items on fresh instances.
     for (m, n) in if ctx.quick() { vec![(8usize, 65_536usize + 300)] } else { vec![(8, 65_536 + 300), (64, 140_000), (3, 70_000)] } {
@@ -304,7 +328,7 @@ pub fn corr_smh(ctx: &mut Ctx) {
         let _ = s.sketch(&12345u64);
     });
     ctx.op("smh2 new w 4294967295 4");
-    ctx.line(&format!("smh2 sk w {}", hx(hash_with::<FnvHasher, u64>(&12345u64))), if r.is_err() { "PANIC" } else { "ok" });
+    ctx.line(&format!("smh2 sk w {}", fnv_tok(&12345u64)), if r.is_err() { "PANIC" } else { "ok" });
 }
 
 pub fn corr(ctx: &mut Ctx) {
